@@ -374,7 +374,7 @@ func TestC06(t *testing.T) {
 		"racing writes are injected at the engine's merge.scan hook, where Merge holds no lock; the interleaving is the generated scan position",
 		"bounds as C01")
 	defer finishProperty(st)
-	rapid.Check(t, func(t *rapid.T) {
+	checkCases(t, st, func(t *rapid.T) {
 		runHistoryCase(t, "C06", c06Profile, func(r *kvh.Runner) bool { return r.F.MergeAdoptedOverGarbage > 0 })
 	})
 }
@@ -385,7 +385,7 @@ func TestC18(t *testing.T) {
 		"the hint file and the rewritten files are read with datafile.DataReader (validated separately by C11)",
 		"the comparison of the hint-path Open with the scan-path Open is made only when nothing was written in between")
 	defer finishProperty(st)
-	rapid.Check(t, func(t *rapid.T) {
+	checkCases(t, st, func(t *rapid.T) {
 		runHistoryCase(t, "C18", c18Profile, func(r *kvh.Runner) bool { return r.F.HintMerges > 0 })
 	})
 }
